@@ -190,7 +190,53 @@ static void run_prec(uint64_t idx, pv_rng* rng) {
     free(ex);
 }
 
+/* ---------------------------------------------------------------- the relation while other threads decode their own strings */
+static bool conc_iter(pv_rng* r, int iter, void* user, char* err, size_t errsz) {
+    (void)iter; (void)user;
+    pv_mseed m; pv_gen_mseed(r, 3, true, &m);
+    pv_mlang* L; do { L = &pv_langs[pv_randn(r, (uint32_t)pv_nlangs)]; } while (!L->lib);
+    unsigned coin = pv_gen_coin(r), d[16]; pv_m_coeffs(&m, coin, d);
+    uint32_t edit = pv_randn(r, 5);
+    if (edit == 1) { int p = (int)pv_randn(r, 16); d[p] = (d[p] + 1 + pv_randn(r, 2046)) & 2047; }              /* wrong checksum */
+    char raw[2048]; pv_m_join_space(L, d, raw, sizeof raw);
+    if (edit == 2) { char* sp = strchr(raw, ' '); if (sp) memmove(sp + 1, sp, strlen(sp) + 1); }                 /* empty token */
+    if (edit == 3) { size_t n = strlen(raw); raw[n] = ' '; raw[n + 1] = 'x'; raw[n + 2] = 0; }                    /* 17th token */
+    char* in = (L->compose && pv_randn(r, 2)) ? pv_nfc_alloc(raw) : pv_exact_str(raw);
+    int est[PV_MAXLANG]; uint8_t img[32], eimg[32]; int nR = 0, which = -1, all_nw = 1;
+    for (int l = 0; l < pv_nlangs; ++l) {
+        est[l] = -2; if (!pv_langs[l].lib) continue;
+        if (!strncmp(pv_langs[l].key, "zh", 2) && l != (int)(L - pv_langs) && pv_randn(r, 2)) { est[l] = -3; continue; }     /* the slow lists: not always */
+        polyseed_data* s = NULL; est[l] = pv_api_decode_explicit(in, coin, pv_langs[l].lib, &s);
+        if (est[l] == POLYSEED_OK) { if (l == (int)(L - pv_langs)) pv_api_store(s, eimg); pv_api_free(s); }
+        if (est[l] != POLYSEED_ERR_NUM_WORDS) all_nw = 0;
+        if (est[l] != POLYSEED_ERR_NUM_WORDS && est[l] != POLYSEED_ERR_LANG) { ++nR; which = l; }
+    }
+    bool skipped = false; for (int l = 0; l < pv_nlangs; ++l) if (est[l] == -3) skipped = true;
+    const polyseed_lang* lo = NULL; polyseed_data* a = NULL;
+    int st = pv_api_decode(in, coin, pv_randn(r, 2) ? &lo : NULL, &a);
+    bool ok = true;
+    if (all_nw && !skipped) { if (st != POLYSEED_ERR_NUM_WORDS) { ok = false; snprintf(err, errsz, "every explicit decode says NUM_WORDS, auto %s", pv_status_name(st)); } }
+    else if (nR >= 2) { if (st != POLYSEED_ERR_MULT_LANG) { ok = false; snprintf(err, errsz, "%d languages recognise all tokens, auto %s", nR, pv_status_name(st)); } }
+    else if (nR == 1 && !skipped) {
+        if (st != est[which]) { ok = false; snprintf(err, errsz, "only %s recognises all tokens: explicit %s, auto %s; '%.100s'", pv_langs[which].name_en, pv_status_name(est[which]), pv_status_name(st), in); }
+        else if (st == POLYSEED_OK) { pv_api_store(a, img); if (which == (int)(L - pv_langs) && memcmp(img, eimg, 32)) { ok = false; snprintf(err, errsz, "auto and explicit(%s) give different seeds", L->name_en); } if (lo && lo != pv_langs[which].lib) { ok = false; snprintf(err, errsz, "lang_out %s, expected %s", polyseed_get_lang_name_en(lo), pv_langs[which].name_en); } }
+    }
+    else if (nR == 0 && !skipped && !all_nw) { if (st != POLYSEED_ERR_LANG) { ok = false; snprintf(err, errsz, "no language recognises all tokens, auto %s", pv_status_name(st)); } }
+    if (edit == 0 && est[L - pv_langs] != POLYSEED_OK) { ok = false; snprintf(err, errsz, "valid %s phrase -> %s", L->name_en, pv_status_name(est[L - pv_langs])); }
+    if (st == POLYSEED_OK) pv_api_free(a);
+    free(in);
+    return ok;
+}
+static uint64_t n_conc(void) { return pv_scaled(3, 100); }
+static void run_conc(uint64_t idx, pv_rng* rng) {
+    (void)idx;
+    enum { NT = 8, IT = 500 }; static pv_conc_result res[NT];
+    uint64_t seed = pv_rand64(rng);
+    pv_concurrent(NT, IT, seed, 35, conc_iter, NULL, res);
+    if (pv_concurrent_verdict(res, NT, IT, "C09/differs-under-concurrency", "concurrent.strings_satisfying_the_relation")) PV_DISTINCT("nontrivial", seed);
+}
+
 int main(int argc, char** argv) {
-    static const pv_section secs[] = { { "grammar", n_grammar, run_grammar }, { "ambiguous", n_ambig, run_ambig }, { "multi3", n_multi3, run_multi3 }, { "precedence", n_prec, run_prec } };
-    return pv_main(argc, argv, "C09", secs, 4, init, NULL);
+    static const pv_section secs[] = { { "grammar", n_grammar, run_grammar }, { "ambiguous", n_ambig, run_ambig }, { "multi3", n_multi3, run_multi3 }, { "precedence", n_prec, run_prec }, { "concurrent", n_conc, run_conc } };
+    return pv_main(argc, argv, "C09", secs, 5, init, NULL);
 }
